@@ -195,6 +195,10 @@ Section Exec.
   Lemma exec_assign x e st v st1 : eval ext e st = Ok v st1 ->
     exec ext (SAssign [TName x] e) st = Ok CNormal (set_var x v st1).
   Proof. intros H. cbn [exec]. rewrite H. reflexivity. Qed.
+  Lemma exec_seq_assign3 x y z e b st v st1 : eval ext e st = Ok v st1 ->
+    exec ext (SSeq (SAssign [TName x; TName y; TName z] e) b) st =
+    exec ext b (set_var z v (set_var y v (set_var x v st1))).
+  Proof. intros H. cbn [exec]. rewrite H. reflexivity. Qed.
   Lemma exec_seq_assoc a b c st : exec ext (SSeq (SSeq a b) c) st = exec ext (SSeq a (SSeq b c)) st.
   Proof.
     cbn [exec]. destruct (exec ext a st) as [[|v] st1|n st1|w]; cbn [bind]; try reflexivity.
@@ -283,7 +287,9 @@ Ltac push_state :=
   end.
 
 (* one statement at the head of a sequence *)
+Ltac seqnorm := repeat first [rewrite exec_seq_assoc | rewrite exec_seq_pass].
 Ltac assign tac :=
+  seqnorm;
   match goal with
   | |- context [exec ext01 (SSeq (SAssign [TName ?x] ?e) ?b) ?st] =>
       let H := fresh "Hev" in
@@ -295,6 +301,7 @@ Ltac assign tac :=
 Ltac asg := assign ltac:(evn; reflexivity).
 
 Ltac ifstep :=
+  seqnorm;
   match goal with
   | |- context [exec ext01 (SSeq (SIf ?c ?t ?f) ?b) ?st] =>
       let H := fresh "Hev" in
@@ -307,6 +314,7 @@ Ltac ifstep :=
   end.
 
 Ltac setitem :=
+  seqnorm;
   match goal with
   | |- context [exec ext01 (SSeq (SAssign [TSub (EName ?x) ?ke] ?e) ?b) ?st] =>
       let H1 := fresh "Hv" in let H2 := fresh "Hx" in let H3 := fresh "Hk" in let H4 := fresh "Hs" in
@@ -324,7 +332,67 @@ Ltac setitem :=
 
 (* for developing a run: open the evaluation goal of the next assignment *)
 Ltac assign_open :=
+  seqnorm;
   match goal with
   | |- context [exec ext01 (SSeq (SAssign [TName ?x] ?e) ?b) ?st] => eassert (Hdbg : eval ext01 e st = Ok _ st)
   | |- context [exec ext01 (SAssign [TName ?x] ?e) ?st] => eassert (Hdbg : eval ext01 e st = Ok _ st)
+  end.
+
+(* ---- cutting a sequence of statements into consecutive blocks ------------------------------------------- *)
+Fixpoint seq_drop (n : nat) (s : stmt) : stmt :=
+  match n with
+  | O => s
+  | S n' => match s with SSeq _ b => seq_drop n' b | _ => SPass end
+  end.
+
+Fixpoint seq_take (n : nat) (s : stmt) : stmt :=
+  match n with
+  | O => SPass
+  | S n' => match s with SSeq a b => SSeq a (seq_take n' b) | x => x end
+  end.
+
+Lemma exec_seq_pass_r : forall a st, exec ext01 (SSeq a SPass) st = exec ext01 a st.
+Proof. intros. cbn [exec]. destruct (exec ext01 a st) as [[|v] st1|n st1|w]; reflexivity. Qed.
+
+Lemma exec_take_drop : forall n s st, exec ext01 (SSeq (seq_take n s) (seq_drop n s)) st = exec ext01 s st.
+Proof.
+  induction n as [|n IH]; intros s st; [reflexivity|].
+  destruct s; cbn [seq_take seq_drop]; try apply exec_seq_pass_r.
+  rewrite exec_seq_assoc. cbn [exec]. destruct (exec ext01 s1 st) as [[|v] st1|m st1|w]; cbn [bind]; try reflexivity.
+  apply IH.
+Qed.
+
+Lemma exec_seq_assert : forall e b st v, eval ext01 e st = Ok v st -> truthy v = true ->
+  exec ext01 (SSeq (SAssert e) b) st = exec ext01 b st.
+Proof. intros e b st v H T. cbn [exec]. rewrite H. cbn [bind]. rewrite T. reflexivity. Qed.
+
+Ltac assertstep :=
+  seqnorm;
+  match goal with
+  | |- context [exec ext01 (SSeq (SAssert ?e) ?b) ?st] =>
+      let H := fresh "Hev" in
+      eassert (H : eval ext01 e st = Ok _ st); [ solve [evn; reflexivity] | rewrite (exec_seq_assert e b st _ H eq_refl); clear H ]
+  end.
+
+Ltac assign3 :=
+  seqnorm;
+  match goal with
+  | |- context [exec ext01 (SSeq (SAssign [TName ?x; TName ?y; TName ?z] ?e) ?b) ?st] =>
+      let H := fresh "Hev" in
+      eassert (H : eval ext01 e st = Ok _ st);
+      [ solve [evn; reflexivity]
+      | rewrite (exec_seq_assign3 x y z e b st _ _ H); clear H; push_state; push_state; push_state ]
+  end.
+
+Ltac ifstep_t tac :=
+  seqnorm;
+  match goal with
+  | |- context [exec ext01 (SSeq (SIf ?c ?t ?f) ?b) ?st] =>
+      let H := fresh "Hev" in
+      eassert (H : eval ext01 c st = Ok _ st);
+      [ solve [tac] | rewrite (exec_seq_if c t f b st _ _ H); clear H; cbn [truthy] ]
+  | |- context [exec ext01 (SIf ?c ?t ?f) ?st] =>
+      let H := fresh "Hev" in
+      eassert (H : eval ext01 c st = Ok _ st);
+      [ solve [tac] | rewrite (exec_if c t f st _ _ H); clear H; cbn [truthy] ]
   end.
